@@ -41,12 +41,18 @@ CHECKS = {
   "C15": dict(level="exploration", technique="stateful property-based testing, differential against brute-force face enumeration of the stored cells",
      text="After every state-changing step of generated histories (insert, remove, flips, repair) every topology/adjacency query, indexed and non-indexed, for every live and several missing keys, plus simplex counts, Euler characteristic and classification, is compared with direct enumeration.",
      note="Only states valid at the configured guarantee (independent L1-L3) are compared.", ref="3 C15"),
+  "C16": dict(level="exploration", technique="property-based testing of the toroidal builder with an exact-rational congruence oracle for wrapping, the C01 certification for the wrapped result and a lifted-face (vertex, lattice offset) enumeration for the periodic quotient",
+     text="Generated period vectors and points far outside / exactly on the faces of the box (2^40 multiples, +-1e-300, +-ulp) must be stored inside [0,L), congruent to the input within one ulp, with UUID/data kept, idempotently; later insert() must wrap as well; periodic results must have no boundary, Euler characteristic 0 and every separated input once; invalid periods must be rejected.",
+     note="Err is acceptable for any toroidal build; D=3 periodic excluded as the property says. Perturbation within the documented bound tolerated (but not leaving the box).", ref="3 C16"),
   "C17": dict(level="exploration", technique="exhaustive enumeration of small Hilbert grids + property-based testing of orderings and all dedup implementations against exact-rational validity oracles",
      text="Hilbert index checked for bijectivity and adjacency on every cell of grids up to 2^12 cells per dimension 1-5; orderings checked to be permutations and dedup outputs to be valid subsets on generated lists with ties, duplicates, signed zeros and extreme ranges.",
      note="Private batch helpers reached through verif-hooks re-exports. Epsilon comparisons at exactly eps are in band.", ref="3 C17"),
   "C18": dict(level="exploration", technique="property-based testing: generated simplices compared with exact rational Gram-determinant / Cramer reference values, plus metamorphic permutation / translation / scaling relations",
      text="Volume, facet measure, circumcentre, circumradius, inradius and quality ratios of generated D=1..5 simplices are compared with exact values (rel. 1e-9 after a conditioning filter); exactly degenerate simplices must be rejected.",
      note="Reference values are exact rationals rounded once. Translation invariance only asserted for exactly representable translations.", ref="3 C18"),
+  "C19": dict(level="exploration", technique="stateful fuzz-style property-based testing under catch_unwind and a watchdog: adversarial histories (stale / forged / foreign handles, out-of-range indices, extreme and non-finite coordinates) plus the other properties' generators re-run with only the panic monitor",
+     text="Every public call in generated adversarial histories must return (Ok or typed Err) in both build profiles; read APIs are poked with forged keys, locate with extreme queries and hints (bounded walk), hulls and adjacency indices of another triangulation are used; after a non-finite insertion attempt no vertex may be non-finite.",
+     note="Termination via public work statistics plus a wall-clock watchdog (exit 2 = inconclusive); hook-based work counters were not built.", ref="3 C19"),
 }
 NOT_YET = {}
 def main():
